@@ -439,7 +439,7 @@ pub fn run_exhaustive_contexts(out: &mut Out, cfg: &Cfg, maxlen: usize, shard: u
     }
 }
 
-fn emit_context(out: &mut Out, cfg: &Cfg, text: &str) {
+pub fn emit_context(out: &mut Out, cfg: &Cfg, text: &str) {
     let text = text.to_string();
     {
         if !out.begin() { return; }
